@@ -50,6 +50,9 @@ SERVER_INFO = {
     "small-window-cl": (1, None, None, 3),
     # our MAX_FRAME_SIZE raised to 32768 (acknowledged), then lowered to 16384 (the acknowledgement is still to come)
     "mfs-lowering-pending": (1, 1, None, 3),
+    # stream 1 open; a PING was queued, five bytes of it were read with data_to_send(5), then the application discarded the
+    # rest with clear_outbound_data_buffer(): the GOAWAY of the next connection error must come out whole all the same
+    "output-partly-read-then-cleared": (1, 1, None, 3),
 }
 CLIENT_INFO = {
     "fresh": (0, None, None, None), "handshaken": (0, None, None, None),
@@ -66,6 +69,7 @@ CLIENT_INFO = {
     "pushed-ended-forgotten": (2, None, 2, None),
     # request 1 was reset BY THE SERVER, the client has opened request 3 since (stream 1 is gone from the table)
     "reset-by-peer-forgotten": (0, None, None, None),
+    "output-partly-read-then-cleared": (0, 1, None, None),
 }
 
 
@@ -107,6 +111,19 @@ def _build_extra(client, name, cfg):
                   h.rx([wire.settings([], ack=True)]), h.rx([wire.headers(1, sb(H.REQ_POST + [(b"content-length", b"5")]))])):
             assert o.kind == "ok", o.brief()
         h.conn.data_to_send()
+        return h.conn
+    if name == "output-partly-read-then-cleared":
+        h = H.Solo(client, **dict(cfg))
+        if client:
+            ops = (h.api("send_headers", 1, H.ni(H.REQ_POST)), h.rx([wire.headers(1, sb(H.RESP))]))
+        else:
+            ops = (h.rx([wire.headers(1, sb(H.REQ_POST))]),)
+        for o in ops:
+            assert o.kind == "ok", o.brief()
+        h.conn.data_to_send()
+        h.conn.ping(b"12345678")
+        assert len(h.conn.data_to_send(5)) == 5
+        h.conn.clear_outbound_data_buffer()
         return h.conn
     if name == "refused-opens":
         h = H.Solo(False, **dict(cfg))
